@@ -91,3 +91,80 @@ theorem commaSafesB_iff : ∀ (ts : RTyList), commaSafesB ts = true ↔ CommaSaf
 end
 
 end T
+
+namespace T
+open L
+
+mutual
+/-- Bool version of `L.HarvestSafe` (the fragment on which the name harvester is exact, theorem `L.H1`) -/
+def harvestSafeB : RTy → Bool
+  | .prim _ | .unit => true
+  | .named n => isCustomName n
+  | .opt t | .vec t | .hset t | .bset t => harvestSafeB t
+  | .ref t => harvestSafeB t && (str t).head? != some '&'
+  | .hmap k v | .bmap k v => !(str k).contains ',' && harvestSafeB k && harvestSafeB v
+  | .res1 t => !(str t).contains ',' && harvestSafeB t
+  | .res2 t e => !(str t).contains ',' && harvestSafeB t && harvestSafeB e
+  | .tup t ts => !(str t).contains ',' && harvestSafeB t && harvestSafesB ts
+def harvestSafesB : RTyList → Bool
+  | .nil => true
+  | .cons t ts => !(str t).contains ',' && harvestSafeB t && harvestSafesB ts
+end
+
+mutual
+theorem harvestSafeB_iff : ∀ (r : RTy), harvestSafeB r = true ↔ HarvestSafe r
+  | .prim n => by simp [harvestSafeB, HarvestSafe]
+  | .unit => by simp [harvestSafeB, HarvestSafe]
+  | .named n => by simp [harvestSafeB, HarvestSafe, UpperName]
+  | .opt t => by simp only [harvestSafeB, HarvestSafe]; exact harvestSafeB_iff t
+  | .vec t => by simp only [harvestSafeB, HarvestSafe]; exact harvestSafeB_iff t
+  | .hset t => by simp only [harvestSafeB, HarvestSafe]; exact harvestSafeB_iff t
+  | .bset t => by simp only [harvestSafeB, HarvestSafe]; exact harvestSafeB_iff t
+  | .ref t => by
+    simp only [harvestSafeB, HarvestSafe, Bool.and_eq_true, harvestSafeB_iff t, bne_iff_ne, ne_eq]
+  | .hmap k v => by
+    simp only [harvestSafeB, HarvestSafe, Bool.and_eq_true, harvestSafeB_iff k, harvestSafeB_iff v, Bool.not_eq_true',
+      List.contains_eq_mem, decide_eq_false_iff_not, and_assoc]
+  | .bmap k v => by
+    simp only [harvestSafeB, HarvestSafe, Bool.and_eq_true, harvestSafeB_iff k, harvestSafeB_iff v, Bool.not_eq_true',
+      List.contains_eq_mem, decide_eq_false_iff_not, and_assoc]
+  | .res1 t => by
+    simp only [harvestSafeB, HarvestSafe, Bool.and_eq_true, harvestSafeB_iff t, Bool.not_eq_true', List.contains_eq_mem,
+      decide_eq_false_iff_not]
+  | .res2 t e => by
+    simp only [harvestSafeB, HarvestSafe, Bool.and_eq_true, harvestSafeB_iff t, harvestSafeB_iff e, Bool.not_eq_true',
+      List.contains_eq_mem, decide_eq_false_iff_not, and_assoc]
+  | .tup t ts => by
+    simp only [harvestSafeB, HarvestSafe, Bool.and_eq_true, harvestSafeB_iff t, harvestSafesB_iff ts, Bool.not_eq_true',
+      List.contains_eq_mem, decide_eq_false_iff_not, and_assoc]
+theorem harvestSafesB_iff : ∀ (ts : RTyList), harvestSafesB ts = true ↔ HarvestSafes ts
+  | .nil => by simp [harvestSafesB, HarvestSafes]
+  | .cons t ts => by
+    simp only [harvestSafesB, HarvestSafes, Bool.and_eq_true, harvestSafeB_iff t, harvestSafesB_iff ts, Bool.not_eq_true',
+      List.contains_eq_mem, decide_eq_false_iff_not, and_assoc]
+end
+
+mutual
+/-- a one-argument `Result<T>` (type alias) with a project type inside: never harvested (finding K07d) -/
+def hasRes1Named : RTy → Bool
+  | .prim _ | .unit | .named _ => false
+  | .opt t | .vec t | .hset t | .bset t | .ref t => hasRes1Named t
+  | .hmap k v | .bmap k v | .res2 k v => hasRes1Named k || hasRes1Named v
+  | .res1 t => !(hSpecFull t).isEmpty
+  | .tup t ts => hasRes1Named t || hasRes1NamedL ts
+def hasRes1NamedL : RTyList → Bool
+  | .nil => false
+  | .cons t ts => hasRes1Named t || hasRes1NamedL ts
+/-- all named leaves -/
+def hSpecFull : RTy → List Str
+  | .prim _ | .unit => []
+  | .named n => [n]
+  | .opt t | .vec t | .hset t | .bset t | .ref t | .res1 t => hSpecFull t
+  | .hmap k v | .bmap k v | .res2 k v => hSpecFull k ++ hSpecFull v
+  | .tup t ts => hSpecFull t ++ hSpecFullL ts
+def hSpecFullL : RTyList → List Str
+  | .nil => []
+  | .cons t ts => hSpecFull t ++ hSpecFullL ts
+end
+
+end T
